@@ -113,8 +113,8 @@ static string pairs(const vector<int>& masks) {
 static void runCase(int id, const J& c, vf::Out& out, Dbg& dbg, uint64_t seed) {
   size_t nf = c["k"].a.size();
   vector<Fld> F(nf);
-  // P's admissible ownership maps (more than one only in the unspecified case); which of them the code realises is
-  // decided below from the number of bytes the real write produces - everything else is then checked against that map
+  // P's admissible ownership maps (more than one only in the unspecified cases); which of them the code realises is
+  // decided below from what the real write produces - everything else is then checked against that map
   const vector<J>& alts = c["alts"].a;
   size_t alt = 0;
   int len[2] = {0, 0}, fix[2] = {0, 0};   // index 0 = master, 1 = slave
@@ -183,20 +183,6 @@ static void runCase(int id, const J& c, vf::Out& out, Dbg& dbg, uint64_t seed) {
       useds[q] = used; res[q] = w.data();
     }
   };
-  {
-    vector<int> pick(nf, 0); vector<uint8_t> B0[2]; int rc0[2]; size_t u0[2];
-    encode(pick, B0, rc0, u0);
-    for (size_t v = 0; v < alts.size(); v++)
-      if ((size_t)alts[v]["len"].a[0].n == u0[0] && (size_t)alts[v]["len"].a[1].n == u0[1]) { alt = v; break; }
-    for (int q = 0; q < 2; q++) { len[q] = (int)alts[alt]["len"].a[q].n; fix[q] = (int)alts[alt]["fix"].a[q].n; }
-    for (size_t i = 0; i < nf; i++) F[i].b = (int)alts[alt]["own"].a[i].a[0].n;
-  }
-  // --- the three length notions -------------------------------------------------------------
-  const PartType PT[2] = { pt_masterData, pt_slaveData };
-  snprintf(b, sizeof b, ",\"glf\":[%zu,%zu],\"glx\":[%zu,%zu],\"g31\":[%zu,%zu]",
-    set->getLength(PT[0], fix[0]), set->getLength(PT[1], fix[1]), set->getLength(PT[0], len[0]), set->getLength(PT[1], len[1]),
-    set->getLength(PT[0], MAX_LEN), set->getLength(PT[1], MAX_LEN));
-  rec += b;
   for (int base = 0; base < 2; base++) {
     vector<int> pick(nf, base);
     vector<uint8_t> B0[2]; int rc0[2]; size_t u0[2];
@@ -233,6 +219,28 @@ static void runCase(int id, const J& c, vf::Out& out, Dbg& dbg, uint64_t seed) {
       }
     }
   }
+  // --- which admissible map does the code realise?  The one with the length the real write produced and with every field
+  //     at the byte where its encoding showed up (first such map; else length only; else the first map).
+  {
+    auto lenOk = [&](size_t v) { return (size_t)alts[v]["len"].a[0].n == wl[0] && (size_t)alts[v]["len"].a[1].n == wl[1]; };
+    auto posOk = [&](size_t v) {
+      for (size_t i = 0; i < nf; i++) {
+        int first = -1; for (int x = 0; x < 64; x++) if (enc[i][x]) { first = x; break; }
+        if (first >= 0 && first != (int)alts[v]["own"].a[i].a[0].n) return false;
+      }
+      return true; };
+    bool found = false;
+    for (size_t v = 0; v < alts.size() && !found; v++) if (lenOk(v) && posOk(v)) { alt = v; found = true; }
+    for (size_t v = 0; v < alts.size() && !found; v++) if (lenOk(v)) { alt = v; found = true; }
+    for (int q = 0; q < 2; q++) { len[q] = (int)alts[alt]["len"].a[q].n; fix[q] = (int)alts[alt]["fix"].a[q].n; }
+    for (size_t i = 0; i < nf; i++) F[i].b = (int)alts[alt]["own"].a[i].a[0].n;
+  }
+  // --- the three length notions -------------------------------------------------------------
+  const PartType PT[2] = { pt_masterData, pt_slaveData };
+  snprintf(b, sizeof b, ",\"glf\":[%zu,%zu],\"glx\":[%zu,%zu],\"g31\":[%zu,%zu]",
+    set->getLength(PT[0], fix[0]), set->getLength(PT[1], fix[1]), set->getLength(PT[0], len[0]), set->getLength(PT[1], len[1]),
+    set->getLength(PT[0], MAX_LEN), set->getLength(PT[1], MAX_LEN));
+  rec += b;
   // --- decoding: per-field results (selected by name through the set), under every single-bit flip ---------------------
   vf::Rng rng(seed * 1000003ULL + (uint64_t)id);
   for (int q = 0; q < 2; q++) {
